@@ -75,6 +75,16 @@ package meta_leaseset
 //@   }
 //@ }
 
+// C08: the signature and offline-signature parts of an accepted MetaLeaseSet
+// do not point into the caller's buffer (entries hold arrays: copies).
+//@ lemma C08_MetaNoAlias(data []byte) {
+//@   mls, _, err := ReadMetaLeaseSet(data)
+//@   if err == nil {
+//@     assert(fresh(sig.SigData(mls.signature)))
+//@     assert(mls.offlineSignature == nil || (fresh(offline_signature.OffKey(mls.offlineSignature)) && fresh(offline_signature.OffSig(mls.offlineSignature))))
+//@   }
+//@ }
+
 // C15: published + expires is exact.
 //@ lemma C15_MetaExpirationTime(data []byte) {
 //@   mls, _, err := ReadMetaLeaseSet(data)
